@@ -60,16 +60,26 @@ func (g sGrammar) usable() bool {
 	return true
 }
 
-// toLR1 builds the generator's grammar object through its public API.
-func (g sGrammar) toLR1() (*lr1.Grammar, []*lr1.Terminal, []*lr1.Rule) {
+// toLR1 builds the generator's grammar object through its public API. The generator
+// orders symbols by name in several places; scheme 1 names them so that rules sort
+// before terminals and in reverse declaration order.
+func (g sGrammar) toLR1(scheme int) (*lr1.Grammar, []*lr1.Terminal, []*lr1.Rule) {
 	lg := lr1.NewGrammar()
 	var ts []*lr1.Terminal
 	for i := 0; i < g.nT; i++ {
-		ts = append(ts, lg.AddTerminal(string(rune('A'+i))))
+		name := string(rune('A' + i))
+		if scheme == 1 {
+			name = fmt.Sprintf("t%d", g.nT-i)
+		}
+		ts = append(ts, lg.AddTerminal(name))
 	}
 	var rs []*lr1.Rule
 	for i := 0; i < g.nR; i++ {
-		rs = append(rs, lg.AddRule(fmt.Sprintf("r%d", i)))
+		name := fmt.Sprintf("r%d", i)
+		if scheme == 1 {
+			name = fmt.Sprintf("R%d", g.nR-i)
+		}
+		rs = append(rs, lg.AddRule(name))
 	}
 	for _, p := range g.prods {
 		var terms []lr1.Term
@@ -715,10 +725,14 @@ func TestLALR(t *testing.T) {
 	gs := enumGrammars(2, 2, maxP, maxRHS)
 	rep := newReport("lalr-vs-reference")
 	strs := allStrings(2, maxLen)
-	parallel(len(gs), func(i int) {
+	parallel(2*len(gs), func(i2 int) {
+		i, scheme := i2/2, i2%2
 		sg := gs[i]
 		name := sg.String()
-		g, _, _ := sg.toLR1()
+		if scheme == 1 {
+			name += " (rules named to sort before terminals, reversed)"
+		}
+		g, _, _ := sg.toLR1(scheme)
 		tab, pan := constructSafely(g)
 		if pan != "" {
 			rep.count(true)
@@ -750,5 +764,5 @@ func TestLALR(t *testing.T) {
 			rep.sample(name)
 		}
 	})
-	rep.done(t, true, fmt.Sprintf("all grammars with 2 terminals, 2 rules, <=%d productions, rhs <=%d; all token strings of length <=%d", maxP, maxRHS, maxLen))
+	rep.done(t, true, fmt.Sprintf("all grammars with 2 terminals, 2 rules, <=%d productions, rhs <=%d, each under two symbol-naming orders; all token strings of length <=%d", maxP, maxRHS, maxLen))
 }
